@@ -1,377 +1,178 @@
 """C17 - multimethods and visitors call exactly the handler registered for the dynamic types.
 
- 1. TLC: Dispatch.tla (L1) - the registration table as a partial function from class tuples to
-    handler ids; Insert / Erase / Dispatch for the functor dispatchers (map and fast backends,
-    dynamic and static casters, 0..2 undispatched arguments), the static dispatcher (plain and
-    symmetric), acyclic visitors (all catch-all policies) and cyclic visitors.  Its own theorems
-    (table = last registration in the history, exactness of dispatch, purity of look-ups).
+ 0. Compile probes (harness/dispatch/probe_*.cpp): every call form the specification enables exists
+    with the result type the property needs; a failing row is a violation, evaluated before any
+    driver is built.  A driver part that does not build afterwards is skipped (exit 2 only if no
+    violation was found at all).
+ 1. TLC: Dispatch.tla (L1) - registration tables as partial functions from class tuples to handler
+    ids, for up to two dispatcher objects of one kind: Insert / Erase / Dispatch / Clone / Take /
+    Drop2 for the functor dispatchers (map and fast backends, dynamic and static casters, the
+    backends used directly with a user callback type, a hierarchy with a virtual base, 0..3
+    undispatched arguments), the static dispatcher (plain and symmetric, is-a matching of unlisted
+    classes allowed either way), acyclic visitors (all catch-all policies, visitor hierarchies) and
+    cyclic visitors.  Its own theorems (table = last registration in the history / the replayed
+    lineage of copies, exactness of dispatch, purity of look-ups, copies are values).
  2. TLC: FastDispatchImpl.tla (L2, transcription of basic_fast_dispatcher: lazily assigned class
-    indices, next_index, nested vectors grown on demand, check_size, empty std::function cells)
-    refines Dispatch.tla for every registration history up to a bound; an unregistered cell never
-    reaches another handler.
- 3. S->C: TLC enumerates (a) every registration history up to a length per dispatcher kind (one
-    TLC state per history, so the order in which classes are first registered is part of what is
-    explored), (b) every (table, call) transition of the state graph for small tables, (c) every
-    call of the stateless components (static dispatcher menus, visitor menus) and (d) random
-    walks (-simulate) over 5 classes; all are replayed on the real objects.
- 4. C->S: seeded random histories (all kinds, arities 1..3, 5 classes), some of them one per
-    process (no reset of the class indices involved).
- Every recorded event (outcome + probed dispatch table) is validated by TLC against L1
- (DispatchTrace.tla).  The fast dispatcher's class indices and exception types are validated
- against L2 (FastDispatchImplTrace) as an advisory MODEL-DRIFT check.
+    indices shared by all objects, next_index, nested vectors grown on demand, check_size, empty
+    std::function cells, member-wise copies) refines Dispatch.tla for every history up to a bound.
+ 3. S->C: one plan-driven TLC run enumerates every complete history up to a length per dispatcher
+    configuration, one every (table, call) transition for small tables, one every call of the
+    stateless components, one random walks (-simulate) over 5 classes; all replayed on the real objects.
+ 4. C->S: seeded random histories (all kinds, arities 1..3, 5 classes, copies), some one per process;
+    the upstream tests' own call sequences; XTL_NO_EXCEPTIONS builds (calls isolated in child
+    processes, abort = error report); thorough: clang++, -O2 -DNDEBUG and -O0 builds.
+ Every recorded event (outcome + probed dispatch tables) is validated by TLC against L1
+ (DispatchTrace.tla); a rejection is re-executed alone in a fresh driver process and re-validated
+ before it is reported; rejections are de-duplicated by call site and capped.  The fast dispatcher's
+ class indices and exception types are validated against L2 (FastDispatchImplTrace) as an advisory
+ MODEL-DRIFT check.
 """
-import json, os, random, subprocess, threading
+import json, os, random, shutil, threading, time
 from concurrent.futures import ThreadPoolExecutor
-from vlib import core, tlaval
+from vlib import core
 from vlib.core import MachineryError
+from checks import c17_gen as G
+from checks import c17_run as R
 
 KINDS = ["map_dyn", "map_static", "fast_dyn", "fast_static"]
-KIND_NO = {k: i + 1 for i, k in enumerate(KINDS)}
-MC_KIND = {"map_dyn": "KMapDyn", "map_static": "KMapStatic", "fast_dyn": "KFastDyn", "fast_static": "KFastStatic"}
-SRC = os.path.join(core.HARNESS, "dispatch", "driver.cpp")
-CHUNK = 20000      # events per trace file (one TLC validation process each)
+XKINDS = ["raw_map", "raw_fast", "vmap_dyn", "vfast_dyn"]
+OPS = {"ins": ["insert"], "inser": ["insert", "erase"], "table": ["insert2", "erase", "dispatch"],
+       "table_noerase": ["insert2", "dispatch"], "sim": ["insert", "erase", "dispatch", "clone"],
+       "sim_noerase": ["insert", "dispatch", "clone"]}
 
 
-# ----------------------------------------------------------------------------- helpers
-def write_script(path, lines):
-    with open(path, "w") as f:
-        for l in lines:
-            f.write(json.dumps(l, separators=(",", ":")) + "\n")
+def plan(kind, ar, nx, k, ops, mh=999, mc=999, clone=False):
+    o = list(OPS[ops])
+    if clone and "clone" not in o:
+        o.append("clone")
+    return {"kind": kind, "ar": ar, "nx": nx, "k": k, "ops": o, "mh": mh, "mc": mc}
 
 
-def call_only(l):
-    return {"op": l["op"], "a": l["a"]}
-
-
-def emitted(out, tag):
-    res = []
-    pre = '"' + tag
-    for line in out.splitlines():
-        if line.startswith(pre):
-            res.append(json.loads(json.loads(line)[len(tag):]))
-    return res
-
-
-def gen_cfg(ctx, name, **kw):
-    """A TLC config for DispatchMC written into the scratch directory (the constants differ per
-    kind / tier / what the library offers; the static ones live in specs/)."""
+def plan_run(ctx, name, plans, mode, view, simulate=None, extra=(), timeout=1500, workers=None):
+    """One TLC run over several dispatcher configurations (specs/DispatchMC.tla, PSpec): writes a root
+    module that defines the plans and its configuration into the scratch directory."""
     d = ctx.sub("cfg")
-    p = os.path.join(d, name + ".cfg")
-    txt = ["SPECIFICATION Spec", "CONSTANTS",
-           "  Kinds <- %s" % kw["kinds"],
-           "  Arities = {%s}" % ", ".join(str(x) for x in kw["ars"]),
-           "  NXs = {%s}" % ", ".join(str(x) for x in kw["nxs"]),
-           "  K = %d" % kw["k"],
-           "  MaxHist = %d" % kw.get("maxhist", 999),
-           "  MaxCells = %d" % kw.get("maxcells", 999),
-           "  OpClasses <- %s" % kw["ops"],
-           "  EmitMode <- %s" % kw.get("mode", "ModeNone"),
-           "CONSTRAINT Bound"]
-    if kw.get("mode", "ModeNone") != "ModeNone":
-        txt.append("ACTION_CONSTRAINT Emit")
-    if kw.get("view"):
-        txt.append("VIEW " + kw["view"])
-    with open(p, "w") as f:
+    for f in ("Dispatch.tla", "DispatchMC.tla"):
+        if not os.path.exists(os.path.join(d, f)):
+            shutil.copy(os.path.join(core.SPECS, f), os.path.join(d, f))
+    seen = set()
+    recs = []
+    for p in plans:
+        c = (p["kind"], p["ar"], p["nx"], p["k"])
+        if c in seen:
+            raise MachineryError("two S->C plans with the same configuration %s" % (c,))
+        seen.add(c)
+        recs.append('[cfg |-> [kind |-> "%s", ar |-> %d, nx |-> %d, k |-> %d, fl |-> "exc"], mh |-> %d, mc |-> %d, ops |-> {%s}]'
+                    % (p["kind"], p["ar"], p["nx"], p["k"], p["mh"], p["mc"], ", ".join('"%s"' % o for o in p["ops"])))
+    mod = "C17Run_" + name
+    with open(os.path.join(d, mod + ".tla"), "w") as f:
+        f.write("---- MODULE %s ----\nEXTENDS DispatchMC\nRunPlans == {\n  %s }\n====\n" % (mod, ",\n  ".join(recs)))
+    txt = ["SPECIFICATION PSpec", "CONSTANTS", "  Kinds <- KNone", "  Arities = {}", "  NXs = {}", "  K = 1", "  MaxHist = 0",
+           "  MaxCells = 0", "  OpClasses <- OpsHistIns", "  EmitMode <- %s" % mode, "  Plans <- RunPlans", "CONSTRAINT PBound"]
+    if mode != "ModeNone":
+        txt.append("ACTION_CONSTRAINT PEmit")
+    if view:
+        txt.append("VIEW " + view)
+    with open(os.path.join(d, mod + ".cfg"), "w") as f:
         f.write("\n".join(txt) + "\n")
-    return p
+    r = core.tlc(ctx, mod, mod + ".cfg", name="s2c-" + name, heap="6g", timeout=timeout, workers=workers or min(4, core.NCPU),
+                 specdir=d, simulate=simulate, extra=list(extra), env=R.JENV_MC)
+    if r["violated"]:
+        raise MachineryError("S->C enumeration %s failed: %s" % (name, r["outfile"]))
+    return r
 
 
-def reset_ev(cfg):
-    return {"op": "Reset", "a": {"kind": cfg["kind"], "ar": cfg["ar"], "nx": cfg["nx"], "k": cfg["k"]}}
+class Stages:
+    """CPU seconds (this process and its children) per stage, for the evidence file"""
+
+    def __init__(self, ctx):
+        self.ctx, self.last = ctx, self.now()
+        ctx.notes["cpu_by_stage"] = {}
+
+    @staticmethod
+    def now():
+        t = os.times()
+        return t.user + t.system + t.children_user + t.children_system
+
+    def done(self, name):
+        n = self.now()
+        self.ctx.notes["cpu_by_stage"][name] = round(n - self.last, 1)
+        self.last = n
 
 
-def rand_objs(rnd, cfg, classes=None):
-    """argument objects: any object of the classes in use (second objects, the same object twice)"""
-    os_ = []
-    for i in range(cfg["ar"]):
-        c = classes[i] if classes else rnd.randint(1, cfg["k"])
-        os_.append(10 * c + rnd.randint(0, 1))
-    if cfg["ar"] >= 2 and rnd.random() < 0.15:
-        os_[1] = os_[0]
-    return os_
+def edge_plans(q, can_erase):
+    def tops(kind):
+        return "table" if can_erase(kind) else "table_noerase"
+    if q:
+        return [plan("map_dyn", 2, 1, 3, "table", mc=1), plan("fast_static", 2, 1, 3, tops("fast_static"), mc=1),
+                plan("map_static", 1, 3, 3, "table", mc=2), plan("raw_map", 1, 0, 3, "table", mc=2), plan("vfast_dyn", 2, 1, 2, tops("vfast_dyn"), mc=1)]
+    return [plan("map_dyn", 2, 1, 3, "table", mc=2), plan("fast_static", 2, 1, 3, tops("fast_static"), mc=2),
+            plan("map_static", 2, 2, 3, "table", mc=2), plan("fast_dyn", 2, 0, 3, tops("fast_dyn"), mc=2),
+            plan("map_dyn", 1, 1, 4, "table", mc=4), plan("fast_dyn", 1, 3, 4, tops("fast_dyn"), mc=3),
+            plan("map_static", 3, 0, 2, "table", mc=2), plan("fast_static", 3, 1, 2, tops("fast_static"), mc=2),
+            plan("raw_map", 2, 1, 3, "table", mc=2), plan("raw_fast", 1, 0, 4, tops("raw_fast"), mc=3),
+            plan("vmap_dyn", 2, 1, 3, "table", mc=1), plan("vfast_dyn", 2, 1, 3, tops("vfast_dyn"), mc=2)]
 
 
-def rand_xs(rnd, cfg):
-    return [rnd.choice([0, 1, 5, 9, 17, 50]) for _ in range(cfg["nx"])]
+def sim_plans(ctx, q, can_erase, can_copy):
+    splans = []
+    for kind in KINDS:
+        for ar, nx, k in ((1, 3, 5), (2, 0, 5), (2, 1, 5), (2, 2, 5)) + (() if q else ((3, 0, 3), (3, 1, 3))):
+            splans.append(plan(kind, ar, nx, k, "sim" if can_erase(kind) else "sim_noerase"))
+    if not can_copy:
+        for p in splans:
+            p["ops"] = [o for o in p["ops"] if o != "clone"]
+    return splans, ctx.sub("sim")
 
 
-def rand_dispatch(rnd, cfg, registered):
-    """biased towards registered tuples and their permutations (the interesting unregistered ones)"""
-    c = rnd.random()
-    classes = None
-    if registered and c < 0.45:
-        classes = list(rnd.choice(sorted(registered)))
-        if c < 0.2:
-            rnd.shuffle(classes)
-    return {"op": "Dispatch", "a": {"os": rand_objs(rnd, cfg, classes), "xs": rand_xs(rnd, cfg)}}
-
-
-# ------------------------------------------------------------------- TLC -> scripts
-def hist_scripts(hists, rnd, ndisp):
-    """One execution per complete history: Reset, the registrations/erasures, then a few dispatches."""
-    lines, n = [], 0
-    for h in hists:
-        cfg = h["cfg"]
-        lines.append(reset_ev(cfg))
-        reg = set()
-        for e in h["hist"]:
-            t = tuple(e["t"])
-            if e["op"] == "I":
-                lines.append({"op": "Insert", "a": {"t": e["t"], "h": e["h"]}})
-                reg.add(t)
-            else:
-                lines.append({"op": "Erase", "a": {"t": e["t"]}})
-                reg.discard(t)
-        for _ in range(ndisp):
-            lines.append(rand_dispatch(rnd, cfg, reg))
-        n += 1
-    return lines, n
-
-
-def cells_of(p, ar):
-    """nested probe table -> {tuple: h} for registered cells"""
-    out = {}
-
-    def walk(x, pref):
-        if len(pref) == ar:
-            if x["h"]:
-                out[tuple(pref)] = x["h"]
-            return
-        for i, y in enumerate(x):
-            walk(y, pref + [i + 1])
-    walk(p, [])
+def chunked(cfg, calls, bf=None, n=40):
+    """stateless calls as many short executions (a rejection ends the validation of its execution only)"""
+    out = []
+    for i in range(0, len(calls), n):
+        out.append(G.reset_ev(cfg, bf))
+        out.extend(calls[i:i + n])
     return out
 
 
-def edge_scripts(edges, rnd, can_erase):
-    """One execution per source table: Reset, registrations in a seeded random order, every
-    dispatch out of that table, then every Insert/Erase each followed by the call(s) that
-    re-establish the table (a new execution where that needs an erase the library lacks)."""
-    by_src = {}
-    for e in edges:
-        key = json.dumps([e["cfg"], e["p"]], sort_keys=True)
-        by_src.setdefault(key, []).append(e["l"])
-    lines, taken = [], 0
-    for key in sorted(by_src):
-        cfg, p = json.loads(key)
-        cells = cells_of(p, cfg["ar"])
-
-        def setup():
-            out = [reset_ev(cfg)]
-            ts = sorted(cells)
-            rnd.shuffle(ts)
-            for t in ts:
-                out.append({"op": "Insert", "a": {"t": list(t), "h": cells[t]}})
-            return out
-        lines.extend(setup())
-        calls = sorted(by_src[key], key=lambda c: (c["op"] != "Dispatch", json.dumps(c, sort_keys=True)))
-        for c in calls:
-            lines.append(c)
-            taken += 1
-            if c["op"] == "Dispatch":
-                continue
-            t = tuple(c["a"]["t"])
-            if t in cells:
-                lines.append({"op": "Insert", "a": {"t": list(t), "h": cells[t]}})
-            elif c["op"] == "Insert":
-                if can_erase:
-                    lines.append({"op": "Erase", "a": {"t": list(t)}})
-                else:
-                    lines.extend(setup())
-    return lines, taken
-
-
-def sim_scripts(simdir):
-    lines, n = [], 0
-    for fn in sorted(os.listdir(simdir)):
-        states = tlaval.parse_sim_trace(os.path.join(simdir, fn))
-        if len(states) < 2:
-            continue
-        lines.append(reset_ev(states[0]["cfg"]))
-        for s in states[1:]:
-            lines.append({"op": s["last"]["op"], "a": s["last"]["a"]})
-        n += 1
-    return lines, n
-
-
-# ------------------------------------------------------------------- random scripts (C->S)
-def random_script(rnd, kind, can_erase, nexec, nops, stateless_calls, ars):
-    lines = []
-    for _ in range(nexec):
-        ar = rnd.choice(ars)
-        nx = rnd.choice({1: [0, 1], 2: [0, 1, 2], 3: [0, 1]}[ar])
-        k = rnd.choice([5, 5, 5, 4, 3, 2])
-        cfg = {"kind": kind, "ar": ar, "nx": nx, "k": k}
-        lines.append(reset_ev(cfg))
-        reg = {}
-        # a few "hot" classes so that tuples collide, get replaced and get erased
-        hot = [rnd.randint(1, k) for _ in range(3)]
-        nh = 0
-        for _ in range(rnd.randint(nops // 2, nops)):
-            c = rnd.random()
-            if c < 0.40:
-                t = [rnd.choice(hot) if rnd.random() < 0.6 else rnd.randint(1, k) for _ in range(ar)]
-                nh += 1
-                h = nh if rnd.random() < 0.7 else rnd.randint(1, 9)
-                reg[tuple(t)] = h
-                lines.append({"op": "Insert", "a": {"t": t, "h": h}})
-            elif c < 0.55 and can_erase:
-                if reg and rnd.random() < 0.7:
-                    t = list(rnd.choice(sorted(reg)))
-                else:
-                    t = [rnd.randint(1, k) for _ in range(ar)]
-                reg.pop(tuple(t), None)
-                lines.append({"op": "Erase", "a": {"t": t}})
-            elif c < 0.92 or not stateless_calls:
-                lines.append(rand_dispatch(rnd, cfg, set(reg)))
-            else:
-                lines.append(rnd.choice(stateless_calls))
-    return lines
-
-
-# ------------------------------------------------------------------- running the harness
-def run_driver(drv, script_path, trace_path, mode="w"):
-    env = dict(os.environ)
-    env.update(core.ASAN_ENV)
-    with open(script_path) as fin, open(trace_path, mode) as fout:
-        p = subprocess.run([drv], stdin=fin, stdout=fout, stderr=subprocess.PIPE, env=env, timeout=1800)
-    if p.returncode == 3:
-        raise MachineryError("harness rejected script %s: %s" % (script_path, p.stderr.decode(errors="replace")[-500:]))
-
-
-def chunk_by_reset(lines, max_events):
-    """Split a script into files of at most ~max_events events, at Reset boundaries."""
-    chunks, cur = [], []
-    for l in lines:
-        if l["op"] == "Reset" and len(cur) >= max_events:
-            chunks.append(cur)
-            cur = []
-        cur.append(l)
-    if cur:
-        chunks.append(cur)
-    return chunks
-
-
-def split_executions(lines):
-    out, cur = [], []
-    for l in lines:
-        if l["op"] == "Reset" and cur:
-            out.append(cur)
-            cur = []
-        cur.append(l)
-    if cur:
-        out.append(cur)
-    return out
-
-
-def build_drivers(ctx, want):
-    """want: set of (kind, arpart) with arpart in {12, 3}.  Returns {(kind, arpart): path}."""
-    jobs, paths = [], {}
-    for kind, part in sorted(want):
-        out = os.path.join(ctx.work, "drv_%s_%d" % (kind, part))
-        paths[(kind, part)] = out
-        jobs.append({"src": SRC, "out": out, "flags": ["-g0", "-DC17_KIND=%d" % KIND_NO[kind], "-DC17_AR=%d" % part]})
-    core.build_many(ctx, jobs)
-    return paths
-
-
-def caps_of(drv):
-    rc, out = core.sh([drv, "--caps"], timeout=60, env=core.ASAN_ENV)
-    try:
-        return json.loads(out.strip().splitlines()[-1])
-    except Exception:
-        raise MachineryError("driver --caps failed: %s" % out[-500:])
-
-
-def part_of(ar):
-    return 3 if ar == 3 else 12
+def part_of_calls(calls):
+    ops = {c["op"] for c in calls}
+    return "static" if ops & {"Static", "StaticSym"} else "visit"
 
 
 # ------------------------------------------------------------------- replay
 def replay(ctx, path):
-    """./verif replay C17 <file>: re-run the recorded calls on the current tree and validate."""
-    lines = [call_only(l) for l in core.read_ndjson(path) if "_meta" not in l]
-    kind = next((l["a"]["kind"] for l in lines if l["op"] == "Reset"), "map_dyn")
-    ar = max([l["a"]["ar"] for l in lines if l["op"] == "Reset"] or [2])
-    if kind == "none":
-        kind = "map_dyn"
-    drv = build_drivers(ctx, {(kind, part_of(ar))})[(kind, part_of(ar))]
-    sp, tp = os.path.join(ctx.work, "replay.script"), os.path.join(ctx.work, "replay.ndjson")
-    write_script(sp, lines)
-    run_driver(drv, sp, tp)
-    r = core.validate_trace(ctx, "DispatchTrace", "DispatchTrace.cfg", tp)
+    """./verif replay C17 <file>: re-run the recorded calls on the current tree (same dispatcher kind,
+    arity, build flavour) and validate; a Probe line re-compiles the probe."""
+    lines = [l for l in core.read_ndjson(path) if "_meta" not in l]
+    if lines and lines[0].get("op") == "Probe":
+        a = lines[0]["a"]
+        rows, out = R.run_probe(a["file"], a.get("cxx", "g++"))
+        bad = [r for r in rows if r[0] == a["row"]] or rows
+        if not bad:
+            print("replay accepted: %s compiles, every row holds" % a["file"])
+            return 0
+        print("VIOLATION property=C17 replay=%s" % path)
+        for rid, text, msg in bad:
+            print("  probe row %s fails: %s ; compiler: %s" % (rid, text, msg[:300]))
+        return 1
+    calls = R.calls_of(lines)
+    key, bf = R.key_of_reset(calls[0]["a"])
+    if key is None:
+        key = (part_of_calls(calls), 12, bf)
+    built, errs = R.build_all(ctx, {key})
+    if key not in built:
+        raise MachineryError("the driver for this replay does not build: %s" % errs.get(key, "")[-1500:])
+    tr, _, _ = R.run_script(ctx, built[key], calls, os.path.join(ctx.work, "replay"), fresh=True, force=True)
+    tp = os.path.join(ctx.work, "replay.ndjson")
+    with open(tp, "w") as f:
+        f.write("\n".join(tr) + "\n")
+    r = core.validate_trace(ctx, "DispatchTrace", "DispatchTrace.cfg", tp, env=R.JENV)
     if r["accepted"]:
         print("replay accepted: the recorded calls now conform to Dispatch.tla")
         return 0
     print("VIOLATION property=C17 replay=%s" % path)
-    print("  rejected at event %d; spec expected: %s" % (r["fail_line"] + 1, r.get("expected")))
+    print("  rejected at event %d: %s ; spec expected: %s" % (r["fail_line"] + 1, tr[r["fail_line"]][:600] if r["fail_line"] < len(tr) else "?", r.get("expected")))
     return 1
-
-
-# ------------------------------------------------------------------- selftest (binding demonstration)
-def selftest(ctx):
-    """./verif selftest C17: corrupt one field of a recorded trace (or drop one event) and show that
-    TLC rejects the trace at exactly that line."""
-    import copy
-    drv = build_drivers(ctx, {("fast_static", 12)})[("fast_static", 12)]
-    script = [reset_ev({"kind": "fast_static", "ar": 2, "nx": 1, "k": 3}),
-              {"op": "Insert", "a": {"t": [1, 2], "h": 1}},
-              {"op": "Insert", "a": {"t": [2, 1], "h": 2}},
-              {"op": "Dispatch", "a": {"os": [10, 21], "xs": [5]}},
-              {"op": "Dispatch", "a": {"os": [30, 10], "xs": [9]}},
-              {"op": "StaticSym", "a": {"lhs": [3, 1, 2], "rhs": [3, 1, 2], "cst": False, "os": [10, 30]}},
-              {"op": "Static", "a": {"lhs": [2, 1], "rhs": [3, 2], "cst": False, "os": [30, 10]}},
-              {"op": "Accept", "a": {"v": "crecording", "vis": [1, 2], "o": 51}},
-              {"op": "Cyclic", "a": {"cst": True, "o": 50}},
-              {"op": "Insert", "a": {"t": [1, 2], "h": 3}},
-              {"op": "Dispatch", "a": {"os": [11, 20], "xs": [0]}}]
-    sp, tp = os.path.join(ctx.work, "self.script"), os.path.join(ctx.work, "self.ndjson")
-    write_script(sp, script)
-    run_driver(drv, sp, tp)
-    base = core.read_ndjson(tp)
-    r = core.validate_trace(ctx, "DispatchTrace", "DispatchTrace.cfg", tp, explain=False)
-    if not r["accepted"]:
-        print("selftest: the uncorrupted trace is rejected at event %d" % (r["fail_line"] + 1))
-        return 2
-
-    def c_handler(t): t[3]["res"]["val"]["h"] = 2
-    def c_order(t): t[3]["res"]["val"]["objs"] = [21, 10]
-    def c_tag(t): t[3]["res"]["val"]["tg"] = [10, 20]
-    def c_extra(t): t[3]["res"]["val"]["xv"] = [6]
-    def c_ret(t): t[3]["res"]["val"]["ret"] = 106
-    def c_error_ran(t): t[4]["res"]["val"]["calls"] = 1
-    def c_cell(t): t[2]["st"]["tab"][0][0] = {"h": 1, "objs": [10, 10]}
-    def c_sym(t): t[5]["res"]["val"]["ba"]["val"]["sig"] = [1, 3]
-    def c_onerror(t): t[6]["res"] = {"exc": "none", "val": {"calls": 1, "ret": 1031, "rep": 0, "h": 0, "sig": [3, 1], "dyn": [3, 1], "objs": [30, 10], "tg": [30, 10], "xv": [], "xid": True}}
-    def c_policy(t): t[7]["res"]["val"]["pobj"] = 50
-    def c_cyclic(t): t[8]["res"]["val"]["sig"] = [1]
-    def c_stale(t): t[10]["res"]["val"]["h"] = 1
-    cases = [("handler id of a dispatch", c_handler, 3), ("order of the arguments the handler saw", c_order, 3),
-             ("tag the handler read through its typed reference", c_tag, 3),
-             ("value of the undispatched argument", c_extra, 3), ("returned value", c_ret, 3),
-             ("a handler ran although an error was reported", c_error_ran, 4), ("one cell of the probed table", c_cell, 2),
-             ("symmetric dispatch reaching two different handlers", c_sym, 5), ("on_error replaced by a handler call", c_onerror, 6),
-             ("object handed to the catch-all policy", c_policy, 7), ("cyclic visitor visiting as another class", c_cyclic, 8),
-             ("replaced handler still being called", c_stale, 10)]
-    bad = 0
-    for what, f, line in cases:
-        t = copy.deepcopy(base)
-        f(t)
-        p = os.path.join(ctx.work, "self-corrupt.ndjson")
-        write_script(p, t)
-        r = core.validate_trace(ctx, "DispatchTrace", "DispatchTrace.cfg", p, explain=False)
-        ok = (not r["accepted"]) and r["fail_line"] == line
-        print("selftest: corrupted %-55s -> %s at event %d (expected %d)" % (what, "accepted" if r["accepted"] else "rejected", r.get("fail_line", -1) + 1, line + 1))
-        bad += 0 if ok else 1
-    t = copy.deepcopy(base)
-    del t[1]          # drop the first registration: the next event's table no longer matches
-    p = os.path.join(ctx.work, "self-removed.ndjson")
-    write_script(p, t)
-    r = core.validate_trace(ctx, "DispatchTrace", "DispatchTrace.cfg", p, explain=False)
-    print("selftest: removed event 2 -> %s at event %d (expected 2)" % ("accepted" if r["accepted"] else "rejected", r.get("fail_line", -1) + 1))
-    bad += 0 if (not r["accepted"] and r["fail_line"] == 1) else 1
-    print("selftest %s" % ("ok" if not bad else "FAILED (%d cases)" % bad))
-    return 0 if not bad else 2
 
 
 # ------------------------------------------------------------------- the check
@@ -379,44 +180,68 @@ def run(ctx):
     q = ctx.quick
     rnd = random.Random(ctx.seed)
     findings = core.load_findings("C17")
+    t_cpu0 = os.times()
+    have_clang = shutil.which("clang++") is not None
+    stg = Stages(ctx)
+
+    # ---- 0. compile probes: evaluated before any driver is built
+    nprobe = R.probes(ctx, ("g++",) if q or not have_clang else ("g++", "clang++"))
+    ctx.log("compile probes: %d failing rows" % nprobe)
+    ctx.notes["probe_rows_failing"] = nprobe
 
     # ---- build the harnesses from the working tree (in the background, while TLC runs)
-    want = {(k, 12) for k in KINDS}
+    want = {(k, 12, "asan") for k in KINDS} | {("static", 12, "asan"), ("visit", 12, "asan"), ("raw", 12, "asan"), ("virt", 12, "asan"),
+                                                  ("fast_static", 3, "asan"),
+                                                  ("visit", 12, "noexc"), ("fast_static", 12, "noexc")}
     if not q:
-        want |= {(k, 3) for k in KINDS}
-    built = {}
-    berr = []
+        want |= {(k, 3, "asan") for k in KINDS}
+        want |= {("map_dyn", 12, "noexc"), ("static", 12, "noexc"), ("raw", 12, "noexc")}
+        want |= {(k, 12, "o2") for k in KINDS} | {("static", 12, "o2"), ("visit", 12, "o2"), ("fast_static", 12, "o0"), ("visit", 12, "o0")}
+        if have_clang:
+            want |= {(k, 12, "clang") for k in KINDS} | {("static", 12, "clang"), ("visit", 12, "clang"), ("raw", 12, "clang"), ("virt", 12, "clang")}
+    built, berrs = {}, {}
+    bexc = []
 
     def bg_build():
         try:
-            built.update(build_drivers(ctx, want))
+            b, e = R.build_all(ctx, want)
+            built.update(b)
+            berrs.update(e)
         except Exception as ex:      # reported from the main thread
-            berr.append(ex)
+            bexc.append(ex)
     bt = threading.Thread(target=bg_build)
     bt.start()
 
     try:
-        # ---- 1. L1 model checking (the oracle's own theorems)
+        # ---- 1. L1 model checking (the oracle's own theorems), 2. L2 => L1
         actcov = {}
 
         def add_cov(r):
             for k, v in r.get("coverage", {}).items():
-                if k.startswith("N"):
+                if k.startswith("N") or k in ("Insert", "Erase", "Dispatch", "Clone", "Take", "Drop2", "Static", "StaticSym", "Accept", "Cyclic"):
                     c = actcov.setdefault(k, [0, 0])
                     c[0] += v[0]
                     c[1] += v[1]
-        for cfg, what in (("Dispatch_mc.cfg" if q else "Dispatch_mc_thorough.cfg", "L1 tables x every call: exactness, purity, one-cell updates"),
-                          ("Dispatch_mc_hist.cfg" if q else "Dispatch_mc_hist_thorough.cfg", "L1 histories: table = last registration per tuple")):
-            r = core.tlc_model_check(ctx, "DispatchMC", cfg, what, coverage=not q, workers=8)
-            if r["violated"]:
-                raise MachineryError("L1 spec Dispatch.tla violates its own theorem %s (oracle bug), see %s" % (r["violated"], r["outfile"]))
-            add_cov(r)
-        r = core.tlc(ctx, "DispatchMC", "Dispatch_stateless.cfg", name="stateless-enumerate", workers=4, coverage=not q)
+        mc_jobs = [("DispatchMC", "Dispatch_mc.cfg" if q else "Dispatch_mc_thorough.cfg", "L1 tables x every call: exactness, purity, one-cell updates%s" % (", copies are values (two objects)" if q else " (one object, 3 classes, arities 1..3)"), True),
+                   ("DispatchMC", "Dispatch_mc_hist.cfg" if q else "Dispatch_mc_hist_thorough.cfg", "L1 histories: tables = last registration per tuple / replayed lineage of copies", True)]
+
+        if not q:
+            mc_jobs.append(("DispatchMC", "Dispatch_mc_thorough_clone.cfg", "L1 tables x every call with two objects and copies (2 classes, <= 3 registered tuples each)", True))
+
+        def mc(job):
+            mod, cfg, what, cov = job
+            return job, core.tlc_model_check(ctx, mod, cfg, what, coverage=(cov and not q), workers=min(4, core.NCPU), env=R.JENV_MC, timeout=3000)
+        with ThreadPoolExecutor(max_workers=max(1, core.NCPU // 4)) as ex:
+            for job, r in ex.map(mc, mc_jobs):
+                if r["violated"]:
+                    raise MachineryError("L1 spec Dispatch.tla violates its own theorem %s (oracle bug), see %s" % (r["violated"], r["outfile"]))
+                add_cov(r)
+        r = core.tlc(ctx, "DispatchMC", "Dispatch_stateless.cfg", name="stateless-enumerate", workers=min(4, core.NCPU), coverage=not q, env=R.JENV)
         if r["violated"]:
             raise MachineryError("L1 spec Dispatch.tla violates its own theorem %s on the stateless calls, see %s" % (r["violated"], r["outfile"]))
         add_cov(r)
         stateless = {}
-        for e in emitted(r["out"], "@E@"):
+        for e in G.emitted(r["out"], "@E@"):
             stateless[json.dumps(e["l"], sort_keys=True)] = e["l"]
         stateless = [stateless[k] for k in sorted(stateless)]
         ctx.cov["states"] += r["distinct"]
@@ -424,243 +249,375 @@ def run(ctx):
         ctx.notes["s2c_stateless_calls"] = len(stateless)
     finally:
         bt.join()
-    if berr:
-        raise berr[0]
+    stg.done("probes + driver builds + L1 model checking + stateless enumeration")
+    if bexc:
+        raise bexc[0]
+    for key in sorted(berrs):
+        ctx.log("driver %s does not build against this tree; its scripts are skipped" % (key,))
+    ctx.notes["drivers_built"] = len(built)
+    ctx.notes["drivers_not_building"] = ["%s/%d/%s" % k for k in sorted(berrs)]
+
+    def finish_unbuildable():
+        # nothing more can be run: report what the probes found, or the machinery failure
+        if ctx.violations:
+            return finish(ctx, q, t_cpu0, {}, note="no conformance driver builds against this tree; only the compile probes were evaluated")
+        k0 = sorted(berrs)[0]
+        raise MachineryError("no conformance driver builds and no compile probe failed: %s\n%s" % (k0, berrs[k0][-3000:]))
+    if not built:
+        return finish_unbuildable()
+
     # what this tree's library offers is probed at compile time (SFINAE in the driver), not assumed:
     # basic_fast_dispatcher has no erase member today, so the fast dispatchers' histories contain no
     # Erase; if a later tree gains one, the insert+erase histories and the L2 erase configurations
-    # are used automatically
-    caps = caps_of(built[("fast_static", 12)])
-    fast_erase = bool(caps.get("fast_erase"))
+    # are used automatically.  Copying dispatchers is not part of the property: used if available.
+    caps = {"fast_erase": False, "map_erase": True, "copyable": True}
+    if ("fast_static", 12, "asan") in built:
+        c = R.caps_of(built[("fast_static", 12, "asan")])
+        caps["fast_erase"] = bool(c.get("fast_erase"))
+        caps["copyable"] = bool(c.get("copyable"))
+    if ("map_dyn", 12, "asan") in built:
+        c = R.caps_of(built[("map_dyn", 12, "asan")])
+        caps["map_erase"] = bool(c.get("map_erase"))
+        caps["copyable"] = caps["copyable"] and bool(c.get("copyable"))
+    fast_erase, can_copy = caps["fast_erase"], caps["copyable"]
     ctx.notes["library_offers"] = caps
     ctx.log("library offers: %s" % caps)
 
     def can_erase(kind):
-        return fast_erase if kind.startswith("fast") else True
+        return fast_erase if kind in G.FAST_KINDS else caps["map_erase"]
+
+    def hops(kind):
+        return "inser" if can_erase(kind) else "ins"
 
     # ---- 2. L2 => L1 refinement of the fast dispatcher
-    l2cfgs = ["FastDispatchImpl_mc%s.cfg" % ("_erase" if fast_erase else "")]
-    if not q and not fast_erase:
-        l2cfgs.append("FastDispatchImpl_mc_thorough.cfg")
-    for l2cfg in l2cfgs:
-        r2 = core.tlc_model_check(ctx, "FastDispatchImpl", l2cfg,
-                                  "L2 (lazy class indices, nested vectors, check_size) refines L1; no cell aliasing", workers=8)
-        if r2["violated"]:
-            ctx.drift.append("FastDispatchImpl.tla does not refine Dispatch.tla (%s); see %s" % (r2["violated"], r2["outfile"]))
+    er = "_erase" if fast_erase else ""
+    l2cfgs = [("FastDispatchImpl_mc%s.cfg" % er, "L2 (lazy class indices, nested vectors, check_size) refines L1; no cell aliasing"),
+              ("FastDispatchImpl_mc_copies%s.cfg" % er, "L2 with member-wise copies sharing the static class indices refines L1")]
     if not q:
-        r3 = core.tlc_model_check(ctx, "FastDispatchImpl", "FastDispatchImpl_mc3%s.cfg" % ("_erase" if fast_erase else ""),
-                                  "L2 refines L1 at arity 3 and arity 1", workers=8)
-        if r3["violated"]:
-            ctx.drift.append("FastDispatchImpl.tla (arity 1/3) does not refine Dispatch.tla (%s); see %s" % (r3["violated"], r3["outfile"]))
+        l2cfgs += [("FastDispatchImpl_mc4%s.cfg" % er, "L2 refines L1, histories <= 4 over 3 classes"),
+                   ("FastDispatchImpl_mc3%s.cfg" % er, "L2 refines L1 at arity 3 and arity 1"),
+                   ("FastDispatchImpl_mc_copies_thorough%s.cfg" % er, "L2 with copies refines L1, 3 classes")]
+        if not fast_erase:
+            l2cfgs.append(("FastDispatchImpl_mc_thorough.cfg", "L2 refines L1, histories <= 5 over 3 classes"))
 
-    scripts = []      # (name, kind, arpart, lines, fresh_process)
+    def l2(job):
+        return core.tlc_model_check(ctx, "FastDispatchImpl", job[0], job[1], workers=min(4, core.NCPU), env=R.JENV_MC, timeout=3000)
+    with ThreadPoolExecutor(max_workers=max(1, core.NCPU // 4)) as ex:
+        for r2 in ex.map(l2, l2cfgs):
+            if r2["violated"]:
+                ctx.drift.append("FastDispatchImpl.tla does not refine Dispatch.tla (%s, %s); see %s" % (r2["cfg"], r2["violated"], r2["outfile"]))
 
-    # ---- 3a. S->C: every registration history up to a length, per dispatcher kind
-    plans = []        # (kind, ar, nx, k, ops, maxhist)
-    ndisp = 1 if q else 2
+    stg.done("L2 refinement")
+    scripts = []      # dict(name, key, lines, fresh)
+
+    def add(name, key, lines, fresh=False):
+        if not lines:
+            return
+        if key not in built:
+            ctx.notes.setdefault("scripts_skipped_driver_missing", []).append(name)
+            return
+        scripts.append({"name": name, "key": key, "lines": lines, "fresh": fresh})
+
+    # ---- 3a. S->C: every complete history up to a length, per dispatcher configuration (one TLC run)
+    cl = can_copy
     if q:
-        plans += [("fast_dyn", 2, 0, 3, "ins", 4), ("fast_static", 2, 1, 3, "ins", 4),
-                  ("map_dyn", 2, 2, 3, "inser", 3), ("map_static", 2, 0, 3, "inser", 2),
-                  ("fast_static", 1, 1, 3, "ins", 3), ("map_dyn", 1, 0, 3, "inser", 3)]
-        if fast_erase:
-            plans += [("fast_dyn", 2, 1, 3, "inser", 3), ("fast_static", 2, 0, 3, "inser", 3)]
+        hplans = [plan("fast_static", 2, 1, 3, hops("fast_static"), 4), plan("fast_dyn", 2, 0, 3, hops("fast_dyn"), 3),
+                  plan("map_dyn", 2, 2, 2, "inser", 3), plan("map_static", 2, 0, 3, "inser", 2),
+                  plan("fast_static", 1, 1, 4, hops("fast_static"), 3), plan("map_dyn", 1, 0, 3, "inser", 3),
+                  plan("fast_static", 3, 0, 2, hops("fast_static"), 3),
+                  plan("raw_fast", 2, 1, 3, hops("raw_fast"), 3), plan("raw_map", 1, 0, 3, "inser", 3),
+                  plan("vfast_dyn", 2, 1, 3, hops("vfast_dyn"), 3), plan("vmap_dyn", 1, 0, 3, "inser", 2)]
+        if cl:
+            hplans += [plan("map_dyn", 2, 1, 2, "inser", 3, clone=True), plan("fast_static", 2, 1, 2, hops("fast_static"), 3, clone=True),
+                       plan("fast_dyn", 1, 0, 3, hops("fast_dyn"), 3, clone=True)]
     else:
-        plans += [("fast_static", 2, 1, 3, "ins", 5), ("fast_dyn", 2, 0, 3, "ins", 4),
-                  ("fast_dyn", 2, 2, 4, "ins", 3), ("fast_static", 2, 0, 4, "ins", 3),
-                  ("map_dyn", 2, 2, 3, "inser", 3), ("map_static", 2, 0, 3, "inser", 3),
-                  ("map_dyn", 2, 0, 2, "inser", 4), ("map_static", 2, 1, 4, "ins", 3),
-                  ("fast_static", 1, 1, 4, "ins", 4), ("fast_dyn", 1, 0, 4, "ins", 4),
-                  ("map_dyn", 1, 0, 3, "inser", 4), ("map_static", 1, 1, 3, "inser", 4),
-                  ("map_dyn", 3, 0, 3, "ins", 2), ("map_static", 3, 1, 2, "inser", 3),
-                  ("fast_static", 3, 0, 3, "ins", 3), ("fast_dyn", 3, 1, 2, "ins", 4)]
-        if fast_erase:
-            plans += [("fast_dyn", 2, 1, 3, "inser", 4), ("fast_static", 2, 0, 3, "inser", 3),
-                      ("fast_static", 3, 1, 2, "inser", 3), ("fast_dyn", 1, 1, 3, "inser", 4)]
-    nhist = 0
-    plan_notes = []
-
-    def enum_hist(arg):
-        i, (kind, ar, nx, k, ops, mh) = arg
-        cfg = gen_cfg(ctx, "hist-%02d-%s" % (i, kind), kinds=MC_KIND[kind], ars=[ar], nxs=[nx], k=k, maxhist=mh,
-                      ops="OpsHistIns" if ops == "ins" else "OpsHistInsEr", mode="ModeHist", view="histvars")
-        r = core.tlc(ctx, "DispatchMC", cfg, name="s2c-hist-%02d-%s" % (i, kind), heap="6g", timeout=1500, workers=4,
-                     coverage=(not q and i == 0))
-        if r["violated"]:
-            raise MachineryError("s2c history enumeration failed: %s" % r["outfile"])
-        hs = emitted(r["out"], "@H@")
-        r["out"] = ""
-        return r, hs
-    with ThreadPoolExecutor(max_workers=4) as ex:
-        results = list(ex.map(enum_hist, list(enumerate(plans))))
-    for (i, (kind, ar, nx, k, ops, mh)), (r, hs) in zip(enumerate(plans), results):
-        hs.sort(key=lambda h: json.dumps(h, sort_keys=True))      # TLC's output order depends on its worker threads
-        lines, n = hist_scripts(hs, rnd, ndisp if ar < 3 and mh < 5 else 1)
+        hplans = [plan("fast_static", 2, 1, 3, hops("fast_static"), 5), plan("fast_dyn", 2, 0, 3, hops("fast_dyn"), 4),
+                  plan("fast_dyn", 2, 2, 4, hops("fast_dyn"), 3), plan("fast_static", 2, 0, 4, hops("fast_static"), 3),
+                  plan("map_dyn", 2, 2, 3, "inser", 3), plan("map_static", 2, 0, 3, "inser", 3),
+                  plan("map_dyn", 2, 0, 2, "inser", 4), plan("map_static", 2, 1, 4, "ins", 3),
+                  plan("fast_static", 1, 1, 4, hops("fast_static"), 4), plan("fast_dyn", 1, 0, 4, hops("fast_dyn"), 4),
+                  plan("map_dyn", 1, 0, 3, "inser", 4), plan("map_static", 1, 1, 3, "inser", 4), plan("map_dyn", 1, 3, 2, "inser", 3),
+                  plan("map_dyn", 3, 0, 3, "ins", 2), plan("map_static", 3, 1, 2, "inser", 3),
+                  plan("fast_static", 3, 0, 3, hops("fast_static"), 3), plan("fast_dyn", 3, 1, 2, hops("fast_dyn"), 4),
+                  plan("raw_fast", 2, 1, 3, hops("raw_fast"), 4), plan("raw_map", 2, 1, 2, "inser", 3), plan("raw_map", 1, 0, 3, "inser", 3),
+                  plan("vfast_dyn", 2, 1, 3, hops("vfast_dyn"), 4), plan("vmap_dyn", 2, 1, 2, "inser", 3), plan("vfast_dyn", 1, 0, 5, hops("vfast_dyn"), 3)]
+        if cl:
+            hplans += [plan("map_dyn", 2, 1, 2, "inser", 4, clone=True), plan("fast_static", 2, 1, 2, hops("fast_static"), 4, clone=True),
+                       plan("fast_dyn", 1, 0, 3, hops("fast_dyn"), 4, clone=True), plan("map_static", 1, 0, 2, "inser", 4, clone=True),
+                       plan("raw_fast", 2, 1, 2, hops("raw_fast"), 3, clone=True), plan("vfast_dyn", 1, 0, 3, hops("vfast_dyn"), 3, clone=True)]
+    # small builds only have (arity 1, no extras) and (arity 2, one extra)
+    for p in hplans:
+        if R.PART_OF_KIND[p["kind"]] in R.SMALL_PARTS and (p["ar"], p["nx"]) not in G.SMALL_COMBOS:
+            raise MachineryError("plan %s uses a combination the small driver build lacks" % p)
+    enum = ThreadPoolExecutor(max_workers=3 if core.NCPU >= 8 else 1)      # the three enumerations are independent
+    f_edges = enum.submit(lambda: plan_run(ctx, "edges", edge_plans(q, can_erase), "ModeEdges", "absvars"))
+    splans, simdir = sim_plans(ctx, q, can_erase, can_copy)
+    f_sim = enum.submit(lambda: plan_run(ctx, "sim", splans, "ModeNone", None, simulate="file=%s/t,num=%d" % (simdir, 120 if q else 600),
+                                         extra=["-depth", "25" if q else "40", "-seed", str(ctx.seed)], workers=1))
+    rh = plan_run(ctx, "hist", hplans, "ModeHist", "histvars")
+    hs = G.emitted(rh["out"], "@H@")
+    rh["out"] = ""
+    hs.sort(key=lambda h: json.dumps(h, sort_keys=True))      # TLC's output order depends on its worker threads
+    ctx.cov["states"] += rh["distinct"]
+    ctx.cov["transitions"] += rh["generated"]
+    by_cfg = G.hist_scripts(hs, rnd, 1)
+    plan_notes, nhist = [], 0
+    for i, p in enumerate(hplans):
+        ck = json.dumps({"kind": p["kind"], "ar": p["ar"], "nx": p["nx"], "k": p["k"], "fl": "exc"}, sort_keys=True)
+        execs = by_cfg.get(ck, [])
+        nhist += len(execs)
         plan_notes.append("%s arity %d, %d extras, %d classes, %s, length %d: %d histories" % (
-            kind, ar, nx, k, "insert" if ops == "ins" else "insert+erase", mh, n))
-        nhist += n
-        ctx.cov["states"] += r["distinct"]
-        ctx.cov["transitions"] += r["generated"]
-        ctx.log("S->C: %s arity %d, %d extras, %d classes, %s: %d complete histories of length %d (%d states), %d script events"
-                % (kind, ar, nx, k, "insert only" if ops == "ins" else "insert+erase", n, mh, r["distinct"], len(lines)))
-        scripts.append(("hist-%02d-%s" % (i, kind), kind, part_of(ar), lines, False))
+            p["kind"], p["ar"], p["nx"], p["k"], "+".join(p["ops"]), p["mh"], len(execs)))
+        add("hist-%02d-%s" % (i, p["kind"]), R.drv_key(p["kind"], p["ar"]), [l for e in execs for l in e])
+    ctx.log("S->C: %d complete histories over %d dispatcher configurations (%d states)" % (nhist, len(hplans), rh["distinct"]))
     ctx.notes["s2c_histories_replayed"] = nhist
     ctx.notes["s2c_history_plans"] = plan_notes
-    if not q:
-        add_cov(results[0][0])
-        ctx.notes["l1_action_coverage"] = actcov
-        ctx.notes["vacuous_actions"] = sorted(k for k in ("NInsert", "NInsert2", "NErase", "NDispatch", "NStatic", "NStaticSym", "NAccept", "NCyclic")
-                                              if actcov.get(k, [0, 0])[1] == 0)
 
-    # ---- 3b. S->C: every (table, call) transition for small tables
-    nedges = ntaken = 0
-    eplans = [("map_dyn", 2, 1, 3, 2), ("fast_static", 2, 1, 3, 2)] if q else \
-             [("map_dyn", 2, 1, 3, 3), ("fast_static", 2, 1, 3, 3), ("map_static", 2, 2, 3, 2), ("fast_dyn", 2, 0, 3, 2),
-              ("map_dyn", 1, 1, 4, 4), ("fast_dyn", 1, 1, 4, 4), ("map_static", 3, 0, 2, 2), ("fast_static", 3, 1, 2, 2)]
-    def enum_edges(arg):
-        i, (kind, ar, nx, k, mc) = arg
-        ce = can_erase(kind)
-        cfg = gen_cfg(ctx, "edges-%02d-%s" % (i, kind), kinds=MC_KIND[kind], ars=[ar], nxs=[nx], k=k, maxcells=mc,
-                      ops="OpsTable" if ce else "OpsTableNoErase", mode="ModeEdges", view="absvars")
-        r = core.tlc(ctx, "DispatchMC", cfg, name="s2c-edges-%02d-%s" % (i, kind), heap="6g", timeout=1500, workers=4)
-        if r["violated"]:
-            raise MachineryError("s2c transition enumeration failed: %s" % r["outfile"])
-        es = emitted(r["out"], "@E@")
-        r["out"] = ""
-        return r, es
-    with ThreadPoolExecutor(max_workers=4) as ex:
-        results = list(ex.map(enum_edges, list(enumerate(eplans))))
-    for (i, (kind, ar, nx, k, mc)), (r, es) in zip(enumerate(eplans), results):
-        lines, taken = edge_scripts(es, rnd, can_erase(kind))
-        nedges += len(es)
+    # ---- 3b. S->C: every (table, call) transition for small tables (one TLC run)
+    re_ = f_edges.result()
+    es = G.emitted(re_["out"], "@E@")
+    re_["out"] = ""
+    ctx.cov["states"] += re_["distinct"]
+    ctx.cov["transitions"] += re_["generated"]
+    ntaken = 0
+    for ck, (lines, taken) in sorted(G.edge_scripts(es, rnd, can_erase).items()):
+        cfg = json.loads(ck)
         ntaken += taken
-        ctx.cov["states"] += r["distinct"]
-        ctx.cov["transitions"] += r["generated"]
-        scripts.append(("edges-%02d-%s" % (i, kind), kind, part_of(ar), lines, False))
-    ctx.log("S->C: %d (table, call) transitions enumerated by TLC, %d replayed" % (nedges, ntaken))
-    ctx.notes["s2c_transitions_enumerated"] = nedges
+        add("edges-%s-%d-%d" % (cfg["kind"], cfg["ar"], cfg["nx"]), R.drv_key(cfg["kind"], cfg["ar"]), lines)
+    ctx.log("S->C: %d (table, call) transitions enumerated by TLC, %d replayed" % (len(es), ntaken))
+    ctx.notes["s2c_transitions_enumerated"] = len(es)
     ctx.notes["s2c_transitions_replayed"] = ntaken
 
     # ---- 3c. S->C: every call of the stateless components (static dispatcher, visitors)
-    scripts.append(("stateless", "map_dyn", 12, [reset_ev({"kind": "none", "ar": 1, "nx": 0, "k": 1})] + stateless, False))
+    none_cfg = {"kind": "none", "ar": 1, "nx": 0, "k": 1, "fl": "exc"}
+    st_calls = [c for c in stateless if c["op"] in ("Static", "StaticSym")]
+    vi_calls = [c for c in stateless if c["op"] in ("Accept", "Cyclic")]
+    add("stateless-static", ("static", 12, "asan"), chunked(none_cfg, st_calls))
+    add("stateless-visit", ("visit", 12, "asan"), chunked(none_cfg, vi_calls))
 
-    # ---- 3d. TLC simulation walks over 5 classes (longer histories)
-    nwalks = 0
-    sim_ars = [1, 2] if q else [1, 2, 3]
-
-    def run_sim(kind):
-        simdir = ctx.sub("sim-" + kind)
-        cfg = gen_cfg(ctx, "sim-" + kind, kinds=MC_KIND[kind], ars=sim_ars, nxs=[0, 1, 2], k=5,
-                      ops="OpsSimInsEr" if can_erase(kind) else "OpsSimIns")
-        core.tlc(ctx, "DispatchMC", cfg, name="s2c-simulate-" + kind,
-                 simulate="file=%s/t,num=%d" % (simdir, 40 if q else 150),
-                 extra=["-depth", "25" if q else "40", "-seed", str(ctx.seed)], workers=1)
-        return sim_scripts(simdir)
-    with ThreadPoolExecutor(max_workers=4) as ex:
-        results = list(ex.map(run_sim, KINDS))
-    for kind, (lines, n) in zip(KINDS, results):
-        nwalks += n
-        for part in sorted({part_of(a) for a in sim_ars}):
-            sel = [l for ex_ in split_executions(lines) if part_of(ex_[0]["a"]["ar"]) == part for l in ex_]
-            if sel:
-                scripts.append(("sim-%s-%d" % (kind, part), kind, part, sel, False))
+    # ---- 3d. TLC simulation walks over 5 classes (longer histories, copies included)
+    f_sim.result()
+    enum.shutdown()
+    by_cfg, nwalks = G.sim_scripts(simdir)
+    for ck in sorted(by_cfg):
+        cfg = json.loads(ck)
+        add("sim-%s-%d-%d" % (cfg["kind"], cfg["ar"], cfg["nx"]), R.drv_key(cfg["kind"], cfg["ar"]), [l for e in by_cfg[ck] for l in e])
     ctx.notes["s2c_simulation_walks"] = nwalks
     ctx.log("S->C: %d TLC simulation walks over 5 classes" % nwalks)
 
+    stg.done("S->C enumeration (histories, transitions, walks)")
     # ---- 4. C->S: seeded random histories, all kinds; a share of them one execution per process
     for kind in KINDS:
-        r2_ = random.Random(ctx.seed * 7919 + KIND_NO[kind])
-        lines = random_script(r2_, kind, can_erase(kind), 40 if q else 400, 40, stateless, [1, 2])
-        scripts.append(("rnd-%s" % kind, kind, 12, lines, False))
-        lines = random_script(r2_, kind, can_erase(kind), 12 if q else 60, 30, stateless, [1, 2])
-        scripts.append(("rndproc-%s" % kind, kind, 12, lines, True))
-        if not q:
-            lines = random_script(r2_, kind, can_erase(kind), 80, 40, stateless, [3])
-            scripts.append(("rnd3-%s" % kind, kind, 3, lines, False))
+        r2_ = random.Random(ctx.seed * 7919 + R.PART_NO[kind])
+        add("rnd-%s" % kind, (kind, 12, "asan"), G.random_script(r2_, kind, can_erase(kind), can_copy, 40 if q else 400, 40, [1, 2]))
+        add("rndproc-%s" % kind, (kind, 12, "asan"), G.random_script(r2_, kind, can_erase(kind), can_copy, 12 if q else 60, 30, [1, 2]), fresh=True)
+        if (kind, 3, "asan") in want:
+            add("rnd3-%s" % kind, (kind, 3, "asan"), G.random_script(r2_, kind, can_erase(kind), can_copy, 12 if q else 80, 40, [3]))
+    for kind in XKINDS:
+        r2_ = random.Random(ctx.seed * 7919 + 100 + XKINDS.index(kind))
+        add("rnd-%s" % kind, R.drv_key(kind, 2), G.random_script(r2_, kind, can_erase(kind), can_copy, 15 if q else 150, 30, [1, 2], small=True))
+    # the upstream tests' own call sequences, everything logged and validated
+    for kind, lines in sorted(G.upstream_scripts().items()):
+        add("upstream-%s" % kind, (kind, 12, "asan"), lines)
+    add("upstream-visitors", ("visit", 12, "asan"), G.upstream_visitor_script())
+
+    # XTL_NO_EXCEPTIONS builds (XTL_THROW prints and aborts): every call that may report an error runs
+    # in a child process of the driver; registered dispatches, on_error and the catch-all policies
+    # must be unchanged, an unregistered tuple / throwing catch-all is the outcome "abort"
+    nx_cfg = dict(none_cfg, fl="noexc")
+    r3_ = random.Random(ctx.seed * 104729 + 1)
+    vsel = vi_calls if not q else [c for c in vi_calls if c["op"] == "Cyclic" or r3_.random() < 0.5]
+    add("noexc-visit", ("visit", 12, "noexc"), chunked(nx_cfg, vsel))
+    for kind in ["fast_static"] + ([] if q else ["map_dyn", "raw_fast"]):
+        lines = G.random_script(r3_, kind, can_erase(kind), can_copy, 14 if q else 60, 14, [1, 2], fl="noexc", small=True, kmax=3)
+        add("noexc-%s" % kind, R.drv_key(kind, 2, "noexc"), lines)
+    if not q:
+        add("noexc-static", ("static", 12, "noexc"), chunked(nx_cfg, st_calls))
+
+    # other compilers / optimisation levels (thorough): the random scripts and the stateless menus again
+    if not q:
+        for bf in ["o2", "o0"] + (["clang"] if have_clang else []):
+            for part in sorted({k[0] for k in want if k[2] == bf}):
+                r4_ = random.Random(ctx.seed * 15485863 + sum(map(ord, bf + part)))
+                if part == "static":
+                    add("%s-static" % bf, (part, 12, bf), chunked(none_cfg, st_calls, bf))
+                elif part == "visit":
+                    add("%s-visit" % bf, (part, 12, bf), chunked(none_cfg, vi_calls, bf))
+                else:
+                    for kind in sorted(k for k, p in R.PART_OF_KIND.items() if p == part):
+                        add("%s-rnd-%s" % (bf, kind), (part, 12, bf),
+                            G.random_script(r4_, kind, can_erase(kind), can_copy, 120, 40, [1, 2], bf=bf, small=R.is_small(part, bf)))
 
     # ---- probes for open known findings (tiny scripts that must still fail)
     for fnd in findings:
         if "probe" in fnd:
-            scripts.append(("probe-" + fnd["id"], fnd["probe"].get("kind", "map_dyn"), 12, fnd["probe"]["script"], False))
+            add("probe-" + fnd["id"], R.drv_key(fnd["probe"].get("kind", "map_dyn"), 2), fnd["probe"]["script"])
 
     # ---- run the harness
-    ctx.log("running %d scripts on the real dispatchers" % len(scripts))
+    ctx.log("running %d scripts on the real dispatchers (%d drivers)" % (len(scripts), len(built)))
     tdir = ctx.sub("traces")
+
+    def run_job(s):
+        bulk = s["name"].startswith(("hist-", "edges-"))
+        return R.run_script(ctx, built[s["key"]], s["lines"], os.path.join(tdir, s["name"]), fresh=s["fresh"], uar=not bulk)
     traces, fast_traces = [], []
-    nevents = 0
-    jobs = []
-    for name, kind, part, lines, fresh in scripts:
-        drv = built[(kind, part)]
-        for ci, ch in enumerate(chunk_by_reset(lines, CHUNK)):
-            sp = os.path.join(tdir, "%s-%d.script" % (name, ci))
-            tp = os.path.join(tdir, "%s-%d.ndjson" % (name, ci))
-            jobs.append((drv, sp, tp, ch, fresh, name, ci))
-            traces.append(tp)
-            if kind.startswith("fast"):
-                fast_traces.append(tp)
-            nevents += len(ch)
-            ctx.cov["traces_validated_against_impl"] += sum(1 for l in ch if l["op"] == "Reset")
-
-    def run_job(job):
-        drv, sp, tp, ch, fresh, name, ci = job
-        write_script(sp, ch)
-        if fresh:
-            open(tp, "w").close()
-            for j, ex_ in enumerate(split_executions(ch)):
-                spj = os.path.join(tdir, "%s-%d-x%d.script" % (name, ci, j))
-                write_script(spj, ex_)
-                run_driver(drv, spj, tp, mode="a")
-        else:
-            run_driver(drv, sp, tp)
+    nevents = nrestarts = nlost = 0
     with ThreadPoolExecutor(max_workers=max(2, core.NCPU // 2)) as ex:
-        list(ex.map(run_job, jobs))
-    ctx.log("harness: %d script events in %d trace files" % (nevents, len(traces)))
-    for nm in ("hist-00-fast_dyn", "stateless"):
-        for name, kind, part, lines, fresh in scripts:
-            if name == nm:
-                ctx.sample({"script": [json.dumps(x) for x in lines[:8]]})
+        for s, (tr, restarts, lost) in zip(scripts, ex.map(run_job, scripts)):
+            traces.append((s["name"], tr))
+            if s["key"][0] in ("fast_dyn", "fast_static") and s["key"][2] == "asan" and s["name"].startswith(("hist", "rnd", "sim")):
+                fast_traces.append(tr)
+            nevents += len(tr)
+            nrestarts += restarts
+            nlost += lost
+            ctx.cov["traces_validated_against_impl"] += sum(1 for l in s["lines"] if l["op"] == "Reset")
+    stg.done("running the drivers")
+    ctx.log("harness: %d events recorded from %d scripts (%d driver restarts after a crash, %d executions not run)" % (nevents, len(scripts), nrestarts, nlost))
+    ctx.notes["driver_restarts"] = nrestarts
+    ctx.notes["executions_not_run"] = nlost
+    for nm in ("hist-00-fast_static", "stateless-static"):
+        for s in scripts:
+            if s["name"] == nm:
+                ctx.sample({"script": [json.dumps(x) for x in s["lines"][:8]]})
 
-    # ---- validate every trace against L1
-    def classify(ev, execution):
+    # ---- validate every trace against L1 (few large files), then confirm and report the rejections
+    paths = R.pack(ctx, traces, 30000 if q else 60000)
+    rejs = R.validate_files(ctx, paths)
+    ctx.cov["evaluations"] = ctx.cov["events_validated"]
+    ctx.log("validated %d events in %d files (%d executions) against Dispatch.tla; %d rejections followed up" % (
+        ctx.cov["events_validated"], len(paths), ctx.cov["traces_validated_against_impl"], len(rejs)))
+    stg.done("trace validation against L1")
+    report(ctx, rejs, built, findings)
+    stg.done("confirmation of rejections")
+
+    # ---- advisory: class indices / exception types of the fast dispatcher against L2
+    if not ctx.violations and fast_traces:
+        cap = 6000 if q else 60000
+        sel = []
+        for tr in fast_traces:
+            take = tr[:max(0, cap // len(fast_traces))]
+            # cut at an execution boundary
+            while take and len(take) < len(tr) and not tr[len(take)].startswith('{"op":"Reset"'):
+                take.pop()
+            sel.extend(take)
+        p = os.path.join(ctx.sub("validate"), "l2.ndjson")
+        with open(p, "w") as f:
+            f.write("\n".join(sel) + "\n")
+        rr = core.validate_trace(ctx, "FastDispatchImplTrace", "FastDispatchImplTrace.cfg", p, name="l2-advisory", explain=False, env=R.JENV)
+        if not rr["accepted"]:
+            ctx.drift.append("FastDispatchImpl.tla no longer describes the code: event %d of %s (class indices / exception type differ): %s"
+                             % (rr["fail_line"] + 1, p, sel[rr["fail_line"]][:300] if rr["fail_line"] < len(sel) else "?"))
+        ctx.notes["l2_events_validated"] = rr["matched"]
+        ctx.log("validated %d fast-dispatcher events against FastDispatchImpl.tla (advisory)" % rr["matched"])
+
+    stg.done("advisory L2 trace validation")
+    if not q:
+        ctx.notes["l1_action_coverage"] = actcov
+        ctx.notes["vacuous_actions"] = sorted(k for k in ("NInsert2", "NErase", "NDispatch", "NClone", "NTake", "NDrop2", "NStatic", "NStaticSym", "NAccept", "NCyclic")
+                                              if actcov.get(k, [0, 0])[1] == 0)
+    # a driver part that does not build although no probe row failed and nothing else was rejected
+    for k in sorted(berrs):
+        if k[0] == "raw":       # the backends with a user callback type are not named by the property
+            ctx.drift.append("the driver part that uses basic_dispatcher / basic_fast_dispatcher directly with a user callback type no longer builds (%s)" % (k,))
+    hard = {k: v for k, v in berrs.items() if k[0] != "raw"}
+    if hard and not ctx.violations:
+        k0 = sorted(hard)[0]
+        raise MachineryError("driver %s does not build against this tree and no violation was found: %s" % (k0, berrs[k0][-3000:]))
+    return finish(ctx, q, t_cpu0, caps)
+
+
+def report(ctx, rejs, built, findings):
+    """De-duplicate, confirm by re-execution, explain and report at most MAX_REPORT rejections."""
+    if not rejs:
+        return
+    order, ndistinct = R.select(rejs)
+    ctx.notes["rejections_followed_up"] = len(rejs)
+    ctx.notes["rejections_distinct_call_sites"] = ndistinct
+
+    def classify(ev):
         for k in findings:
             m = k.get("match", {})
             if m and all(ev.get(x) == y or ev.get("a", {}).get(x) == y for x, y in m.items()):
                 return "%s (%s)" % (k["key"], k["what"])
         return None
-    core.validate_traces(ctx, "DispatchTrace", "DispatchTrace.cfg", traces, classify=classify)
-    ctx.cov["evaluations"] = ctx.cov["events_validated"]
-    ctx.log("validated %d events in %d traces (%d executions) against Dispatch.tla" % (
-        ctx.cov["events_validated"], len(traces), ctx.cov["traces_validated_against_impl"]))
 
-    # ---- advisory: class indices / exception types of the fast dispatcher against L2
-    if not ctx.violations:
-        sel = fast_traces[:3] if q else fast_traces[:15]        # advisory only: a sample is enough
-        nd = 0
+    def get_driver(reset, calls=None):
+        key, bf = R.key_of_reset(reset)
+        if key is None:
+            key = (part_of_calls(calls or []), 12, bf)
+        return built[key]
+    desync, unrepro, nrep = [], [], 0
+    for r in order:
+        if nrep >= R.MAX_REPORT:
+            break
+        last = json.loads(r["execution"][-1])
+        if last.get("op") == "Desync":
+            desync.append(r)
+            continue
+        key = classify(last)
+        if key:
+            if key not in ctx.known:
+                ctx.known.append(key)
+            continue
+        calls = R.calls_of(r["execution"])
+        ok, expected, ev = R.confirm(ctx, r, lambda reset: get_driver(reset, calls), nrep + len(unrepro))
+        if not ok:
+            unrepro.append(r)
+            continue
+        nrep += 1
+        what = "driver died (%s) during" % last.get("why") if last.get("op") == "Crash" else "trace rejected by DispatchTrace at"
+        text = "%s event %d of %s: %s ; spec expected: %s" % (what, r["idx"] + 1, os.path.basename(r["path"]), (ev or "?")[:700], (expected or "?")[:1200])
+        ctx.violation(text, replay_lines=calls)
+    left = max(0, ndistinct - nrep - len(desync) - len(unrepro))
+    if left and nrep:
+        ctx.notes["rejections_not_reported"] = "%d further distinct call sites were rejected (report capped at %d)" % (left, R.MAX_REPORT)
+        ctx.log("%d further distinct rejected call sites are not reported individually (cap %d)" % (left, R.MAX_REPORT))
+    if (desync or unrepro) and not ctx.violations:
+        if unrepro:
+            r = unrepro[0]
+            raise MachineryError("non-reproducible rejection: event %d of %s was accepted when its execution was re-run alone: %s"
+                                 % (r["idx"] + 1, r["path"], r["execution"][-1][:400]))
+        r = desync[0]
+        raise MachineryError("the driver could not follow its script (first rejection of the execution): %s" % r["execution"][-1][:600])
+    if desync or unrepro:
+        ctx.notes["machinery_notes"] = "%d desynchronised and %d non-reproducible rejections besides the reported violations" % (len(desync), len(unrepro))
 
-        def one(tp):
-            return core.validate_trace(ctx, "FastDispatchImplTrace", "FastDispatchImplTrace.cfg", tp,
-                                       name="l2-" + os.path.basename(tp), explain=False)
-        with ThreadPoolExecutor(max_workers=max(1, core.NCPU // 2)) as ex:
-            for tp, r in zip(sel, ex.map(one, sel)):
-                nd += r["matched"]
-                if not r["accepted"]:
-                    ctx.drift.append("FastDispatchImpl.tla no longer describes the code: %s event %d (class indices / exception type differ)"
-                                     % (os.path.basename(tp), r["fail_line"] + 1))
-        ctx.notes["l2_events_validated"] = nd
-        ctx.log("validated %d fast-dispatcher events against FastDispatchImpl.tla (advisory)" % nd)
 
+def finish(ctx, q, t_cpu0, caps, note=None):
+    t = os.times()
+    ctx.notes["cpu_seconds"] = round((t.user + t.system + t.children_user + t.children_system)
+                                     - (t_cpu0.user + t_cpu0.system + t_cpu0.children_user + t_cpu0.children_system), 1)
+    if note:
+        ctx.notes["note"] = note
+    ctx.notes["configuration_axes"] = {
+        "dispatcher kinds": "static_dispatcher (plain/symmetric, const/non-const base, equal/different type lists), functor_dispatcher over basic_dispatcher and "
+                            "basic_fast_dispatcher x dynamic/static caster, both backends directly with a user callback type, dynamic caster over a virtual base; acyclic "
+                            "(6 base_visitable variants x 8 visitors) and cyclic (const/non-const x long/void) visitors: both tiers",
+        "arity": "1 and 2 for every kind, 3 for fast_static and map_dyn (classes 1..3) in the quick tier; 3 for all four functor kinds in the thorough tier; arity > 3 not built",
+        "undispatched arguments": "0, 1, 2 (arity 2), 3 (arity 1)",
+        "XTL_NO_EXCEPTIONS": "visitors and fast_static in the quick tier; + map_dyn, raw_fast, static dispatcher in the thorough tier (compiler exceptions stay enabled; -fno-exceptions not built)",
+        "compilers / optimisation": "g++ -O1 with AddressSanitizer in both tiers; thorough: g++ -O2 -DNDEBUG, g++ -O0, clang++ -O1 with AddressSanitizer%s" % ("" if shutil.which("clang++") else " (clang++ not installed: skipped)"),
+    }
     return core.finish(
         ctx, "model_checking",
         rule="TLC: L1 tables x calls exhaustive for %s; L2=>L1 for every registration history of the fast dispatcher up to length %d over "
-             "3 classes at arity 2%s; every complete registration history inside the bounds listed under s2c_history_plans (per dispatcher "
-             "kind: classes, arity, extras, insert-only or insert+erase, length) replayed on the real dispatchers with the full dispatch "
-             "table probed after every call; every (table, call) transition for tables of <= %d registered tuples; every call of the "
-             "static-dispatcher and visitor menus; TLC simulation walks and seeded random histories over 5 classes, arities 1..%d. "
-             "A case is one call with its outcome and the probed table compared by TLC."
-             % ("2 classes (arity 1, 2)" if q else "3 classes with <= 2 registered tuples (arity 1..3)", 4 if q else 5,
-                "" if q else " (2 classes, length 4, at arity 1 and 3)", 2 if q else 3, 2 if q else 3),
+             "3 classes at arity 2 and, with copies on a second object, up to length 4 over %s; every complete history inside the bounds listed "
+             "under s2c_history_plans (per dispatcher kind: classes, arity, extras, operation classes, length) replayed on the real dispatchers "
+             "with the full dispatch tables of every live object probed after every call; every (table, call) transition for tables of <= %d "
+             "registered tuples (<= 2..4 at arity 1); every call of the static-dispatcher and visitor menus; TLC simulation walks and seeded random histories over 5 "
+             "classes, arities 1..3; XTL_NO_EXCEPTIONS builds%s. A case is one call with its outcome and the probed tables compared by TLC."
+             % ("2 classes, two dispatcher objects with <= 2 registered tuples each (arity 1, 2)" if q else "3 classes, two dispatcher objects with <= 2 registered tuples each (arity 1..3)",
+                3 if q else 5, "2 classes" if q else "3 classes", 1 if q else 2, "" if q else "; g++ -O2/-O0 and clang++ builds"),
         assumptions=["handlers, executors and visitors are test fixtures that record what they are given (harness/dispatch/driver.cpp)",
                      "one fast dispatcher per class hierarchy at a time (class indices are reset through the public accessor between executions; "
-                     "a share of the random executions runs one per process)",
-                     "static dispatcher: type lists name a class before its ancestors, and unlisted argument classes have no listed ancestor",
-                     "the exception type used to report an unregistered tuple is not constrained by L1"],
+                     "a share of the random executions runs one per process); while a copy of a fast dispatcher is alive only classes that "
+                     "already have an index are registered, in either object (a copy is a second fast dispatcher over the same hierarchy)",
+                     "static dispatcher: type lists name a class before its ancestors; for an argument whose class is not listed the property "
+                     "statement and Loki's is-a matching disagree, so both on_error and the handler of a listed ancestor are accepted",
+                     "the exception type used to report an unregistered tuple is not constrained by L1; in an XTL_NO_EXCEPTIONS build aborting "
+                     "the (isolated) calling process after the library's message counts as the error report",
+                     "copying / moving / swapping dispatcher objects is not named by the property: explored where the types are copyable, as values"],
         exhaustive=False)
+
+
+from checks.c17_self import selftest      # noqa: E402  (./verif selftest C17)
